@@ -224,6 +224,7 @@ fn c12(quick: bool) -> PropRun {
         let small = scripts_upto(2, &[0, 1], &MODES, &[40, 2000, 3000], &[0, 1]);
         for s in small.iter() { let mut env = env_live(6); env.flush_choice = true; scs.push(spec("C12.all", &grid[0], s, env, 2, oracles)); }
     }
+    for sp in crate::props_ew::c12_api_specs(quick) { scs.push(crate::eprops::ew_scenario(sp)); }
     PropRun { level: "model_checking", scenarios: scs, units: vec![], replay_case: None, summary: lw_summary(
         "transmissions per (packet id, fragment id) read from the wire, acknowledgements from the frames handed to the sender; Unreliable/TimeSensitive at most once, TimeSensitive never first transmitted after the step following send(), Persistent/Reliable never retransmitted after a processed acknowledgement or a packet-window base beyond the packet, and at the horizon every such fragment is acknowledged, moved past or still scheduled",
         json!({"d": d, "fates": "deliver/drop/dup/delay1/delay3 on data and ack frames", "flush_budgets": "2 MB/s, 20 kB/s, 5 kB/s"}),
